@@ -114,7 +114,11 @@ pub fn builtin_function<NumericTypes: EvalexprNumericTypes>(
             .into())
         })),
         "min" => Some(Function::new(|argument| {
-            let arguments = argument.as_tuple()?;
+            // A single argument is passed as it is, not wrapped into a tuple
+            let arguments = match argument {
+                Value::Tuple(tuple) => tuple.clone(),
+                value => vec![value.clone()],
+            };
             let mut min_int = NumericTypes::Int::MAX;
             let mut min_float = NumericTypes::Float::MAX;
             debug_assert!(min_float.is_infinite());
@@ -136,7 +140,11 @@ pub fn builtin_function<NumericTypes: EvalexprNumericTypes>(
             }
         })),
         "max" => Some(Function::new(|argument| {
-            let arguments = argument.as_tuple()?;
+            // A single argument is passed as it is, not wrapped into a tuple
+            let arguments = match argument {
+                Value::Tuple(tuple) => tuple.clone(),
+                value => vec![value.clone()],
+            };
             let mut max_int = NumericTypes::Int::MIN;
             let mut max_float = NumericTypes::Float::MIN;
             debug_assert!(max_float.is_infinite());
